@@ -123,6 +123,18 @@ func (r *Run) declare(name, sort string) string {
 	return s
 }
 
+func (r *Run) declareFun(name, sig string) {
+	if r.eng.C.DeclBy["uf:"+sym(name)] != nil || r.eng.C.DeclBy["uf:"+name] != nil {
+		return
+	}
+	s := sym(name)
+	if !r.declSet[s] {
+		r.declSet[s] = true
+		i := strings.Index(sig, ") ")
+		r.decls = append(r.decls, fmt.Sprintf("(declare-fun %s %s %s)", s, sig[:i+1], sig[i+2:]))
+	}
+}
+
 func (r *Run) fresh(hint, sort string) string {
 	r.freshN++
 	hint = strings.Map(func(c rune) rune {
